@@ -51,6 +51,16 @@
 //! defect is reported where it lives and not once per layer (`layers_not_judged_because_lower_layer_failed`).
 //! What happens to a request that cannot be translated (error, panic, drop) is not prescribed: the only demand is
 //! that the client never sees it.
+//!
+//! Soundness round (what the statement leaves open is accepted):
+//!   * a FULL SNAPSHOT is a collection. Entries that do not name this exchange's entities must not translate; whether
+//!     the snapshot is then refused as a whole or delivered without them is free, as is the order of the entries
+//!     (`judge_snapshot`: every delivered entry must be the right translation of an input entry; a snapshot whose
+//!     entries are all this exchange's - and whose exchange ids are - must translate completely);
+//!   * a REJECTION inside an order snapshot / cancel response / client error that names an asset or instrument that
+//!     is not this exchange's must not be turned into an index: the event may be refused, or delivered with the
+//!     rejection in a form that carries no key (`keyless`);
+//!   * an index -> name lookup may refuse a foreign / out-of-range index by an error or by a panic (`attempt`).
 
 use super::c11::{Def, EX, Rec, Stub, StubCfg, StubScript, Viol, build_indexed, build_state, guarded, install_quiet_hook, menu, roles};
 use super::common::{strategy_id, t_plus};
@@ -312,15 +322,62 @@ fn judge<T: PartialEq + Debug, E: Debug>(kind: &str, want: Option<T>, got: Resul
     }
 }
 
-/// Like `judge`, for inputs whose parts all name entities of this exchange but disagree with one another
-/// (an order filed under another own instrument's entry): refusing the input is as good as translating it,
-/// but a translation must be the right one.
-fn judge_if_translated<T: PartialEq + Debug, E: Debug>(kind: &str, want: T, got: Result<T, E>, input: impl Fn() -> String, out: &mut Vec<Viol>) {
-    if let Ok(g) = got {
-        if g != want {
-            out.push((format!("C04/{kind}/own-gives-other-entity"), format!("{}: got {g:?}, expected {want:?} (or a refusal)", input())));
+/// What a translated full account snapshot SAYS, entry by entry (a multiset; the order of the entries of a
+/// snapshot is not part of the statement): every balance, every instrument entry, every order under its entry.
+fn snapshot_facts(s: &AccountSnapshot) -> Vec<String> {
+    let mut v: Vec<String> = s.balances.iter().map(|b| format!("balance {b:?}")).collect();
+    for i in &s.instruments {
+        v.push(format!("instrument {:?}", i.instrument));
+        v.extend(i.orders.iter().map(|o| format!("order under {:?}: {o:?}", i.instrument)));
+    }
+    v.sort();
+    v
+}
+
+/// Multiset inclusion of sorted fact lists.
+fn facts_within(got: &[String], want: &[String]) -> bool {
+    let mut rest: Vec<&String> = want.iter().collect();
+    got.iter().all(|g| rest.iter().position(|w| *w == g).map(|p| { rest.swap_remove(p); }).is_some())
+}
+
+/// Rule for a full account snapshot (a COLLECTION of entries). `exchange_ok`: every exchange id on the snapshot
+/// itself (and on its wrapper) is this exchange's - otherwise nothing may translate. `own_part`: the translation of
+/// exactly those entries that name entities of this exchange (with this exchange's index on the snapshot).
+/// `complete`: every entry names entities of this exchange and the parts agree with one another.
+///   * complete   -> the snapshot must translate, to exactly the entries of `own_part` (in any order);
+///   * otherwise  -> the entries that do not name this exchange's entities must not translate; whether the snapshot is
+///                   then refused as a whole or translated without them (or without further entries) is not
+///                   prescribed by the statement - but every entry that IS translated must be the right one.
+/// `sig_extra`: signature cause when a translated entry is not justified by `own_part`.
+fn judge_snapshot<E: Debug>(kind: &str, exchange_ok: bool, complete: bool, own_part: impl FnOnce() -> AccountSnapshot, sig_extra: &str,
+    got: Result<AccountSnapshot, E>, input: impl Fn() -> String, out: &mut Vec<Viol>) {
+    match (exchange_ok, got) {
+        (false, Err(_)) => {}
+        (false, Ok(g)) => out.push((format!("C04/{kind}/foreign-translates"), format!("{}: got {g:?}, expected an error (not an entity of this exchange)", input()))),
+        (true, Err(e)) if complete => out.push((format!("C04/{kind}/own-rejected"), format!("{}: got Err({e:?}), expected {:?}", input(), own_part()))),
+        (true, Err(_)) => {}
+        (true, Ok(g)) => {
+            let w = own_part();
+            let (gf, wf) = (snapshot_facts(&g), snapshot_facts(&w));
+            if g.exchange != w.exchange || (complete && gf != wf) {
+                out.push((format!("C04/{kind}/own-gives-other-entity"), format!("{}: got {g:?}, expected (entries in any order) {w:?}", input())));
+            } else if !facts_within(&gf, &wf) {
+                out.push((format!("C04/{kind}/{sig_extra}"), format!("{}: got {g:?}; only these entries name entities of this exchange (each may be translated or left out, nothing else): {w:?}", input())));
+            }
         }
     }
+}
+
+/// One index -> name lookup. The statement demands that an index that is not this exchange's does not translate; HOW
+/// it is refused (an error value or a panic - `ExecutionManager::run` itself panics on such a request) is not
+/// prescribed, so a panic of the lookup counts as a refusal (and is a violation for an own index like any refusal).
+fn attempt<T, E: Debug>(f: impl FnOnce() -> Result<T, E>) -> Result<T, String> {
+    guarded(f).map_err(|p| format!("panic: {p}")).and_then(|r| r.map_err(|e| format!("{e:?}")))
+}
+
+/// An API error that carries no asset / instrument key.
+fn keyless(e: &ApiError) -> bool {
+    !matches!(e, ApiError::AssetInvalid(..) | ApiError::BalanceInsufficient(..) | ApiError::InstrumentInvalid(..))
 }
 
 // ---------------------------------------------------------------------------------------------------------
@@ -348,7 +405,7 @@ fn check_map(truth: &Truth, ix: &IndexedInstruments, x: ExchangeId, pools: &Pool
     // exchange index <-> exchange id
     for e in 0..=truth.exchanges.len() {
         let want = (ExchangeIndex(e) == xi).then_some(x);
-        judge("exchange/index-to-id", want, map.find_exchange_id(ExchangeIndex(e)), || here(&format!("find_exchange_id({e})")), &mut out);
+        judge("exchange/index-to-id", want, attempt(|| map.find_exchange_id(ExchangeIndex(e))), || here(&format!("find_exchange_id({e})")), &mut out);
         *evals += 1;
     }
     for y in ALL_IDS.iter() {
@@ -359,7 +416,7 @@ fn check_map(truth: &Truth, ix: &IndexedInstruments, x: ExchangeId, pools: &Pool
     // instruments: every global index (incl. one out of range), every pooled name
     for g in 0..=ix.instruments().len() {
         let want = truth.inst_name(x, g);
-        judge("instrument/index-to-name", want, map.find_instrument_name_exchange(InstrumentIndex(g)).cloned(),
+        judge("instrument/index-to-name", want, attempt(|| map.find_instrument_name_exchange(InstrumentIndex(g)).cloned()),
             || here(&format!("find_instrument_name_exchange({g}) [instrument {g} is {:?}]", truth.instruments.iter().find(|e| e.idx.index() == g).map(|e| (e.ex, e.name_ex.clone())))), &mut out);
         *evals += 1;
     }
@@ -371,7 +428,7 @@ fn check_map(truth: &Truth, ix: &IndexedInstruments, x: ExchangeId, pools: &Pool
     // assets
     for g in 0..=ix.assets().len() {
         let want = truth.asset_name(x, g);
-        judge("asset/index-to-name", want, map.find_asset_name_exchange(AssetIndex(g)).cloned(),
+        judge("asset/index-to-name", want, attempt(|| map.find_asset_name_exchange(AssetIndex(g)).cloned()),
             || here(&format!("find_asset_name_exchange({g}) [asset {g} is {:?}]", truth.assets.iter().find(|e| e.idx.index() == g).map(|e| (e.ex, e.name_ex.clone())))), &mut out);
         *evals += 1;
     }
@@ -488,11 +545,11 @@ fn check_indexer(truth: &Truth, ix: &IndexedInstruments, x: ExchangeId, map: &Ex
             let name = truth.inst_name(x, g);
             let want_key = (ExchangeIndex(e) == xi).then_some(()).and(name.clone());
             let open = OrderEvent { key: key(ExchangeIndex(e), InstrumentIndex(g), "c-open"), state: request_open() };
-            let got = indexer.order_request(&open).map(|r| (r.key.exchange, r.key.instrument.clone(), r.key.strategy, r.key.cid, r.state));
+            let got = attempt(|| indexer.order_request(&open).map(|r| (r.key.exchange, r.key.instrument.clone(), r.key.strategy, r.key.cid, r.state)));
             let want = want_key.clone().map(|n| (x, n, strategy_id(), ClientOrderId::new("c-open"), request_open()));
             judge("order-request", want, got, || here(format!("order_request(open, exchange {e}, instrument {g})")), &mut out);
             let cancel = OrderEvent { key: key(ExchangeIndex(e), InstrumentIndex(g), "c-cancel"), state: RequestCancel { id: Some(OrderId::new("o9")) } };
-            let got = indexer.order_request(&cancel).map(|r| (r.key.exchange, r.key.instrument.clone(), r.key.strategy, r.key.cid, r.state));
+            let got = attempt(|| indexer.order_request(&cancel).map(|r| (r.key.exchange, r.key.instrument.clone(), r.key.strategy, r.key.cid, r.state)));
             let want = want_key.map(|n| (x, n, strategy_id(), ClientOrderId::new("c-cancel"), RequestCancel { id: Some(OrderId::new("o9")) }));
             judge("order-request", want, got, || here(format!("order_request(cancel, exchange {e}, instrument {g})")), &mut out);
             *evals += 2;
@@ -572,7 +629,22 @@ fn check_indexer(truth: &Truth, ix: &IndexedInstruments, x: ExchangeId, map: &Ex
                             Some(order(xi, i, "s", order_state(v, &ai, &i2)))
                         })();
                         let input = order(*y, n.clone(), "s", order_state(v, a, n2));
-                        judge("inbound/order-snapshot", want, indexer.order_snapshot(input), || here(format!("order_snapshot({y}, {n}, state {v}, asset {a}, instrument {n2})")), &mut out);
+                        let describe = || here(format!("order_snapshot({y}, {n}, state {v}, asset {a}, instrument {n2})"));
+                        match (own_ex.then_some(()).and(ti(n)), want) {
+                            // the order names an own instrument, but its rejection names an asset / instrument that is not
+                            // this exchange's: that name must not translate; whether the event is refused or delivered with
+                            // the rejection in a form that carries no key is not prescribed
+                            (Some(i), None) => {
+                                if let Ok(g) = indexer.order_snapshot(input) {
+                                    let fine = matches!(&g.state, OrderState::Inactive(InactiveOrderState::OpenFailed(OrderError::Rejected(e))) if keyless(e))
+                                        && g == order(xi, i, "s", g.state.clone());
+                                    if !fine {
+                                        out.push(("C04/inbound/order-snapshot/foreign-translates".into(), format!("{}: got {g:?}, expected an error or the order of {i:?} with a rejection that carries no key", describe())));
+                                    }
+                                }
+                            }
+                            (_, want) => judge("inbound/order-snapshot", want, indexer.order_snapshot(input), describe, &mut out),
+                        }
                         *evals += 1;
                     }
                 }
@@ -590,7 +662,19 @@ fn check_indexer(truth: &Truth, ix: &IndexedInstruments, x: ExchangeId, map: &Ex
                             Some(OrderEvent { key: key(xi, i, "r"), state: cancel_state(v, &ai, &i2) })
                         })();
                         let input = OrderEvent { key: key(*y, n.clone(), "r"), state: cancel_state(v, a, n2) };
-                        judge("inbound/cancel-response", want, indexer.order_response_cancel(input), || here(format!("order_response_cancel({y}, {n}, result {v}, asset {a}, instrument {n2})")), &mut out);
+                        let describe = || here(format!("order_response_cancel({y}, {n}, result {v}, asset {a}, instrument {n2})"));
+                        match (own_ex.then_some(()).and(ti(n)), want) {
+                            // as for order snapshots: own order key, rejection naming something that is not this exchange's
+                            (Some(i), None) => {
+                                if let Ok(g) = indexer.order_response_cancel(input) {
+                                    let fine = matches!(&g.state, Err(OrderError::Rejected(e)) if keyless(e)) && g.key == key(xi, i, "r");
+                                    if !fine {
+                                        out.push(("C04/inbound/cancel-response/foreign-translates".into(), format!("{}: got {g:?}, expected an error or the response for {i:?} with a rejection that carries no key", describe())));
+                                    }
+                                }
+                            }
+                            (_, want) => judge("inbound/cancel-response", want, indexer.order_response_cancel(input), describe, &mut out),
+                        }
                         *evals += 1;
                     }
                 }
@@ -622,27 +706,25 @@ fn check_indexer(truth: &Truth, ix: &IndexedInstruments, x: ExchangeId, map: &Ex
         }
         // full account snapshots: every ordered pair of asset names, every ordered pair of instrument names
         for (a1, a2) in pools.asset.iter().cartesian_product(pools.asset.iter()) {
-            let want = (|| {
-                own_ex.then_some(())?;
-                Some(AccountSnapshot { exchange: xi, balances: vec![balance(ta(a1)?, 1), balance(ta(a2)?, 2)], instruments: vec![] })
-            })();
+            let own_part = || AccountSnapshot {
+                exchange: xi,
+                balances: [(a1, 1), (a2, 2)].into_iter().filter_map(|(a, k)| ta(a).map(|i| balance(i, k))).collect(),
+                instruments: vec![],
+            };
+            let complete = ta(a1).is_some() && ta(a2).is_some();
             let input = AccountSnapshot { exchange: *y, balances: vec![balance(a1.clone(), 1), balance(a2.clone(), 2)], instruments: vec![] };
-            judge("inbound/account-snapshot", want, indexer.snapshot(input), || here(format!("snapshot({y}, balances [{a1}, {a2}])")), &mut out);
+            judge_snapshot("inbound/account-snapshot", own_ex, complete, own_part, "foreign-translates", indexer.snapshot(input), || here(format!("snapshot({y}, balances [{a1}, {a2}])")), &mut out);
             *evals += 1;
         }
         for (n1, n2) in pools.inst.iter().cartesian_product(pools.inst.iter()) {
-            let want = (|| {
-                own_ex.then_some(())?;
-                let (i1, i2) = (ti(n1)?, ti(n2)?);
-                Some(AccountSnapshot {
-                    exchange: xi,
-                    balances: vec![],
-                    instruments: vec![
-                        InstrumentAccountSnapshot { instrument: i1, orders: vec![order(xi, i1, "a", order_state(0, &AssetIndex(0), &InstrumentIndex(0)))] },
-                        InstrumentAccountSnapshot { instrument: i2, orders: vec![] },
-                    ],
-                })
-            })();
+            let own_part = || AccountSnapshot {
+                exchange: xi,
+                balances: vec![],
+                instruments: ti(n1).map(|i1| InstrumentAccountSnapshot { instrument: i1, orders: vec![order(xi, i1, "a", order_state(0, &AssetIndex(0), &InstrumentIndex(0)))] }).into_iter()
+                    .chain(ti(n2).map(|i2| InstrumentAccountSnapshot { instrument: i2, orders: vec![] }))
+                    .collect(),
+            };
+            let complete = ti(n1).is_some() && ti(n2).is_some();
             let input = AccountSnapshot {
                 exchange: *y,
                 balances: vec![],
@@ -651,32 +733,33 @@ fn check_indexer(truth: &Truth, ix: &IndexedInstruments, x: ExchangeId, map: &Ex
                     InstrumentAccountSnapshot { instrument: n2.clone(), orders: vec![] },
                 ],
             };
-            judge("inbound/account-snapshot", want, indexer.snapshot(input), || here(format!("snapshot({y}, instruments [{n1} with order, {n2}])")), &mut out);
+            judge_snapshot("inbound/account-snapshot", own_ex, complete, own_part, "foreign-translates", indexer.snapshot(input), || here(format!("snapshot({y}, instruments [{n1} with order, {n2}])")), &mut out);
             *evals += 1;
         }
         // full account snapshots whose parts disagree: the order inside an instrument entry is keyed with exchange
         // id `y` (the snapshot itself says `x`) and with its own instrument name. Every part must name this
         // exchange's entities for the snapshot to translate, and the order is indexed to the instrument IT names.
         for (n1, n2) in pools.inst.iter().cartesian_product(pools.inst.iter()) {
-            let want = (|| {
-                own_ex.then_some(())?;
-                let (i1, i2) = (ti(n1)?, ti(n2)?);
-                Some(AccountSnapshot {
-                    exchange: xi,
-                    balances: vec![],
-                    instruments: vec![InstrumentAccountSnapshot { instrument: i1, orders: vec![order(xi, i2, "a", order_state(0, &AssetIndex(0), &InstrumentIndex(0)))] }],
-                })
-            })();
+            // the order translates only if its own key names this exchange and an own instrument
+            let order_own = own_ex.then_some(()).and(ti(n2));
+            let own_part = || AccountSnapshot {
+                exchange: xi,
+                balances: vec![],
+                instruments: ti(n1).map(|i1| InstrumentAccountSnapshot {
+                    instrument: i1,
+                    orders: order_own.map(|i2| order(xi, i2, "a", order_state(0, &AssetIndex(0), &InstrumentIndex(0)))).into_iter().collect(),
+                }).into_iter().collect(),
+            };
+            // (an order filed under another own instrument's entry: refusing is as good as translating)
+            let complete = ti(n1).is_some() && order_own.is_some() && n1 == n2;
+            let all_own = ti(n1).is_some() && order_own.is_some();
             let input = AccountSnapshot {
                 exchange: x,
                 balances: vec![],
                 instruments: vec![InstrumentAccountSnapshot { instrument: n1.clone(), orders: vec![order(*y, n2.clone(), "a", order_state(0, &pools.asset[0], &pools.inst[0]))] }],
             };
             let describe = || here(format!("snapshot({x}, instruments [{n1} with an order keyed ({y}, {n2})])"));
-            match want {
-                Some(w) if n1 != n2 => judge_if_translated("inbound/account-snapshot", w, indexer.snapshot(input), describe, &mut out),
-                want => judge("inbound/account-snapshot", want, indexer.snapshot(input), describe, &mut out),
-            }
+            judge_snapshot("inbound/account-snapshot", true, complete, own_part, if all_own { "own-gives-other-entity" } else { "foreign-translates" }, indexer.snapshot(input), describe, &mut out);
             *evals += 1;
         }
         // the account_event wrapper around a full snapshot: wrapper exchange `y`, snapshot exchange `y2`
@@ -684,17 +767,12 @@ fn check_indexer(truth: &Truth, ix: &IndexedInstruments, x: ExchangeId, map: &Ex
             let both = own_ex && *y2 == x;
             for (k, a) in pools.asset.iter().enumerate() {
                 let n = &pools.inst[k % pools.inst.len()];
-                let want = (|| {
-                    both.then_some(())?;
-                    Some(AccountEvent {
-                        exchange: xi,
-                        kind: AccountEventKind::Snapshot(AccountSnapshot {
-                            exchange: xi,
-                            balances: vec![balance(ta(a)?, 3)],
-                            instruments: vec![InstrumentAccountSnapshot { instrument: ti(n)?, orders: vec![] }],
-                        }),
-                    })
-                })();
+                let own_part = || AccountSnapshot {
+                    exchange: xi,
+                    balances: ta(a).map(|i| balance(i, 3)).into_iter().collect(),
+                    instruments: ti(n).map(|i| InstrumentAccountSnapshot { instrument: i, orders: vec![] }).into_iter().collect(),
+                };
+                let complete = ta(a).is_some() && ti(n).is_some();
                 let input = AccountEvent {
                     exchange: *y,
                     kind: AccountEventKind::Snapshot(AccountSnapshot {
@@ -703,7 +781,12 @@ fn check_indexer(truth: &Truth, ix: &IndexedInstruments, x: ExchangeId, map: &Ex
                         instruments: vec![InstrumentAccountSnapshot { instrument: n.clone(), orders: vec![] }],
                     }),
                 };
-                judge("inbound/account-event", want, indexer.account_event(input), || here(format!("account_event({y}, full snapshot of {y2}: balance {a}, instrument {n})")), &mut out);
+                let describe = || here(format!("account_event({y}, full snapshot of {y2}: balance {a}, instrument {n})"));
+                match indexer.account_event(input) {
+                    Ok(AccountEvent { exchange, kind: AccountEventKind::Snapshot(s) }) if exchange == xi => judge_snapshot("inbound/account-event", both, complete, own_part, "foreign-translates", Ok::<_, ()>(s), describe, &mut out),
+                    Ok(other) => out.push((format!("C04/inbound/account-event/{}", if both { "own-gives-other-entity" } else { "foreign-translates" }), format!("{}: got {other:?}", describe()))),
+                    Err(e) => judge_snapshot("inbound/account-event", both, complete, own_part, "foreign-translates", Err(e), describe, &mut out),
+                }
                 *evals += 1;
             }
         }
@@ -720,7 +803,19 @@ fn check_indexer(truth: &Truth, ix: &IndexedInstruments, x: ExchangeId, map: &Ex
                     let i2 = if ui { ti(n2)? } else { InstrumentIndex(0) };
                     Some(ClientError::Api(api_error(v, &ai, &i2)))
                 })();
-                judge("inbound/client-error", want, indexer.client_error(ClientError::Api(api_error(v, a, n2))), || here(format!("client_error(api {v}, asset {a}, instrument {n2})")), &mut out);
+                let describe = || here(format!("client_error(api {v}, asset {a}, instrument {n2})"));
+                match want {
+                    // the error names an asset / instrument that is not this exchange's: the name must not translate
+                    // (an error, or the error in a form that carries no key)
+                    None => {
+                        if let Ok(g) = indexer.client_error(ClientError::Api(api_error(v, a, n2))) {
+                            if !matches!(&g, ClientError::Api(e) if keyless(e)) {
+                                out.push(("C04/inbound/client-error/foreign-translates".into(), format!("{}: got {g:?}, expected an error or an API error that carries no key", describe())));
+                            }
+                        }
+                    }
+                    want => judge("inbound/client-error", want, indexer.client_error(ClientError::Api(api_error(v, a, n2))), describe, &mut out),
+                }
                 *evals += 1;
             }
         }
@@ -1483,7 +1578,9 @@ pub fn run(ctx: &Ctx) -> Outcome {
             "the engine index of an entity is the one IndexedInstruments assigns (C11)".into(),
             "an exchange names an instrument / asset one way; exchange names may repeat across exchanges; a name is an opaque case-sensitive key (a name that differs from an exchange's own name only by case, by a separator, by surrounding blanks or by one character is not that exchange's name)".into(),
             "an event / key / snapshot is an exchange's only under exactly that exchange's ExchangeId: a sibling product id of the same venue, Mock, Simulated or Other is another exchange".into(),
-            "the fate of an untranslatable request (error, panic, drop) is not prescribed; only that the client never receives it".into(),
+            "the fate of an untranslatable request (error, panic, drop) is not prescribed; only that the client never receives it; likewise an index -> name lookup may refuse a foreign index by an error or by a panic".into(),
+            "a full account snapshot is a collection: entries that do not name this exchange's entities must not translate; whether the snapshot is then refused as a whole or delivered without them is not prescribed (each delivered entry must be the right translation; the order of entries is free); a snapshot whose entries are all this exchange's must translate completely".into(),
+            "a rejection (ApiError) inside an order event / client error that names an asset or instrument that is not this exchange's must not be translated to an index: the event may be refused or delivered with the rejection in a form that carries no key; error kinds are otherwise not judged for such inputs".into(),
             "a client order id identifies an order only together with its instrument (OrderKey): two requests with the same id for two instruments are two orders".into(),
             "the order in which the client sees two queued requests and the order of the two answers are not prescribed (compared as multisets)".into(),
             "two menus of 8 definitions over 3 exchanges swept by subsets, one menu of 310 definitions swept as a whole; stub client answers immediately (timeouts are C07's subject)".into(),
